@@ -18,9 +18,11 @@ namespace coloquinte {
 void DetailedPlacer::legalize(
     Circuit &circuit, const ColoquinteParameters &params,
     const std::optional<PlacementCallback> &callback) {
+  // Rejected parameters must leave the circuit as it is, pending updates
+  // included
+  params.check();
   circuit.hasCellSizeUpdate_ = false;
   circuit.hasNetUpdate_ = false;
-  params.check();
   std::cout << "Legalization starting (WL " << circuit.hpwl() << ")"
             << std::endl;
   auto startTime = std::chrono::steady_clock::now();
